@@ -218,7 +218,7 @@ def build(rc: RuleCtx, qual: str, bind: Optional[Dict[str, Any]] = None, allow_b
 def _index_like(v: Rat) -> bool:
     rest, _c = split_const(v)
     a = single_atom(rest)
-    return a is not None and a.kind == "fn" and a.name in ("argmax", "argmin", "int", "floor")
+    return a is not None and a.kind == "fn" and (a.name in ("argmax", "argmin", "int", "floor") or a.name.endswith("searchsorted"))
 
 
 def _find_index(env_post, env_pre):
@@ -286,6 +286,10 @@ def interval_of(m: LoopModel, idx: Rat) -> Optional[Interval]:
         if not Lx.equals(L):
             return None
         return Interval(C(c), Lx.sub(C(1)).add(C(c)), f"{a.name} over the whole distance vector (length L) + {c}")
+    if a.kind == "fn" and a.name.endswith("searchsorted") and a.args:
+        # dependency contract: an insertion position of a sorted array a is any of 0 .. len(a) (both ends included)
+        La = m.length_of(a.args[0])
+        return Interval(C(c), La.add(C(c)), f"np.searchsorted returns an insertion position in [0, len] = [0, {La}] (+ {c})")
     if a.kind == "fn" and a.name in ("int", "floor"):
         inner = a.args[0]
         if inner.mul(C(2)).equals(L) and c == 0:
@@ -411,3 +415,73 @@ def check_distance_dispatch(rc, rule: str, qual: str):
             res.violation(rule, fi.module, fi.name, fi.node,
                           f"with distance=Distance.{m_} the split point is chosen with {sorted(got)} instead of {want}: the retained points are not the farthest ones under the selected distance",
                           str(sorted(got)), want, construct=f"distance dispatch {m_}")
+
+
+# --------------------------------------------------------------------------
+# (reduced, removed) pairs returned by the simplifiers belong together
+# --------------------------------------------------------------------------
+
+SIMPLIFIERS = ("rdp.rdp_fixed", "rdp.grdp", "rdp.mp_grdp", "rdp.min_point_rdp")
+
+
+def check_result_pairing(rc, rule: str, quals=SIMPLIFIERS):
+    """Every (reduced, removed) pair a simplifier returns is either another simplifier's own pair, or `removed` is
+    compute_removed_points(points, <that very reduced>).  A table computed for another reduction (a stale one kept across
+    a fallback) makes mapping() answer for the wrong index set."""
+    res = rc.res
+    simp_calls = tuple("call:" + q for q in SIMPLIFIERS + ("rdp.rdp",))
+    for q in quals:
+        fi = rc.func(q)
+        ev = rc.new_eval()
+        ev.no_inline |= {"rdp.compute_removed_points", "rdp.grdp", "rdp.rdp_fixed", "rdp.mp_grdp", "rdp._grdp", "rdp._rdp_fixed", "rdp.rdp"}
+        pts = ev.point("points", True)
+        ev.len_map = {"points": sym("n")}
+        try:
+            out = ev.eval_function(fi, {"points": pts})
+        except Unsupported as e:
+            raise AnalysisError(f"{q}: not modelled for the result pairing: {e}")
+        if not out.returns:
+            raise AnalysisError(f"{q}: no return value found")
+        ok = True
+        for g, v in out.returns:
+            if not g_sat(g):
+                continue
+            for gc, vc in cases_of(v):
+                if not g_sat(g_and(g, gc)):
+                    continue
+                good = False
+                if isinstance(vc, Rat):
+                    a = single_atom(vc)
+                    good = a is not None and a.name in simp_calls and vc.equals(Rat.from_atom(a))
+                elif isinstance(vc, Vec) and len(vc.items) == 2:
+                    good = True
+                    for gr, R in cases_of(vc.items[0]):
+                        for gm, M in cases_of(vc.items[1]):
+                            if not g_sat(g_and(g, gc, gr, gm)):
+                                continue
+                            pair_ok = False
+                            if isinstance(R, Rat) and isinstance(M, Rat):
+                                ma, ra = single_atom(M), single_atom(R)
+                                if ma is not None and ma.name == "call:rdp.compute_removed_points" and len(ma.args) == 2 and ma.args[1].equals(R):
+                                    pair_ok = True
+                                elif ma is not None and ra is not None and ma.name == "item" and ra.name == "item" and ma.args[0].equals(ra.args[0]) \
+                                        and ra.args[1].is_zero() and ma.args[1].is_const() == 1:
+                                    ca = single_atom(ra.args[0])
+                                    pair_ok = ca is not None and ca.name in simp_calls
+                            if not pair_ok:
+                                good = False
+                                res.violation(rule, fi.module, fi.name, fi.node,
+                                              f"{q} can return a removed-points table that was not computed for the reduction it returns (stale or foreign table): "
+                                              "mapping() with this pair does not give reduced[I]", f"reduced = {_short_v(R)}; removed = {_short_v(M)}",
+                                              "removed == compute_removed_points(points, reduced) for the returned reduced", construct=f"result pairing {q}")
+                if not good:
+                    ok = False
+                    if not (isinstance(vc, Vec) and len(vc.items) == 2):
+                        raise AnalysisError(f"{q}: returned value {_short_v(vc)} is not a (reduced, removed) pair - shape not recognised")
+        if ok:
+            res.ok(rule, q, "every returned (reduced, removed) pair belongs together")
+
+
+def _short_v(v, n: int = 140) -> str:
+    t = str(v)
+    return t if len(t) <= n else t[:n] + "..."
